@@ -59,7 +59,7 @@ def NS(tier):
 
 
 def BOUNDS(tier):
-    return {"N": NS(tier), "N_big(span of 26 unit fields + dense field)": BIG_NS[tier], "wavelengths": WVLS, "input_spacings": D1S, "magnifications": _mags(tier),
+    return {"N": NS(tier), "N_big(span of 26 unit fields + dense field)": BIG_NS[tier] + HUGE_NS[tier], "wavelengths": WVLS, "input_spacings": D1S, "magnifications": _mags(tier),
             "distances": _zs(tier), "focal_lengths": FOCALS if tier == "quick" else FOCALS + [-0.1, 30.0, 400.0], "z_scalar_types": ZTYPES,
             "propagators": ["angular_spectrum", "one_step", "two_step", "lens"]}
 
@@ -74,6 +74,8 @@ def _mags(tier):
 
 def cases(tier):
     for c in big_cases(tier):
+        yield c
+    for c in huge_cases(tier):
         yield c
     for N in NS(tier):
         for wvl, d1, zt in itertools.product(WVLS, D1S, ZTYPES):
@@ -107,6 +109,7 @@ def cases(tier):
 
 
 BIG_NS = {"quick": [64, 130], "thorough": [64, 130, 257]}
+HUGE_NS = {"quick": [600], "thorough": [600, 1030, 2050]}      # above 512 / 1024 / 2048, not multiples of 128
 
 
 def big_cases(tier):
@@ -125,6 +128,32 @@ def big_cases(tier):
             for f in (2.5, -2.5):
                 yield Case("big:lens:%s:f=%g" % (base, f),
                            {"big": True, "prop": "lens", "N": N, "wvl": wvl, "d1": d1, "z": f, "zt": "float"})
+
+
+def huge_cases(tier):
+    for N in HUGE_NS[tier]:
+        wvl, d1 = 0.5e-6, 0.01
+        base = "N=%d:lam=%g:d1=%g" % (N, wvl, d1)
+        for m in (1.0, 1.3):
+            for prop in ("angular_spectrum", "two_step"):
+                yield Case("big:%s:%s:m=%g:z=2500" % (prop, base, m),
+                           {"big": True, "prop": prop, "N": N, "wvl": wvl, "d1": d1, "m": m, "z": 2500.0, "zt": "float"})
+        yield Case("big:one_step:%s:z=-2500" % base,
+                   {"big": True, "prop": "one_step", "N": N, "wvl": wvl, "d1": d1, "z": -2500.0, "zt": "float"})
+        yield Case("big:lens:%s:f=2.5" % base,
+                   {"big": True, "prop": "lens", "N": N, "wvl": wvl, "d1": d1, "z": 2.5, "zt": "float"})
+
+
+def _scale_and_reuse(o, fn, x):
+    """P(s U) = s P(U) over 60 decades of amplitude (relative to the scaled result: an absolute threshold anywhere
+    inside shows), and a call history on one caller-owned complex128 field (P(x) evaluated, x used again)"""
+    from mc import variants
+    base = numpy.asarray(fn(x.copy()))
+    for s_ in (1e-30, 1e-18, 1e-9, 1e9, 1e30):
+        got = numpy.asarray(fn(x * s_))
+        o.close("homogeneous_over_amplitude", _maxabs(got / s_ - base) / max(_maxabs(base), 1e-300), TOL, sub="s=%g" % s_)
+    k = variants.check_reuse(o, "input_field", fn, x, TOL, mutate=lambda a: a.__imul__(-0.5j))
+    o.stat("lib_calls", 6 + k)
 
 
 def _big(p):
@@ -171,6 +200,8 @@ def _big(p):
     pin = float(numpy.sum(numpy.abs(xd) ** 2) * d1 ** 2)
     pout = float(numpy.sum(numpy.abs(yd) ** 2) * d_out ** 2)
     o.close("power_conserved_dense_field", abs(pout / pin - 1.0), TOL)
+    if N <= 130:
+        _scale_and_reuse(o, fn, xd)
     xr = xd.real
     for dt in (numpy.float64, numpy.int64):
         yr = numpy.asarray(fn(xr.astype(dt)))
@@ -260,5 +291,8 @@ def evaluate(p):
     pin = float(numpy.sum(numpy.abs(x) ** 2) * d1 ** 2)
     pout = float(numpy.sum(numpy.abs(y) ** 2) * d_out ** 2)
     o.close("power_conserved_dense_field", abs(pout / pin - 1.0), TOL)
+    with warnings.catch_warnings():
+        warnings.simplefilter("ignore")
+        _scale_and_reuse(o, fn, x.reshape(shape))
     o.outcome(numpy.round(T / scale, 6))
     return o
